@@ -19,7 +19,7 @@ Section AbfObject.
          (vzero O nd) (vzero O nd) (vzero O nd) (vzero O nd) (vzero O nd) (vzero O nd) 0 false.
 
   (* the protocol of ResumeModel has no run boundary inside a process *)
-  Definition no_boundary (i : @abf_in T) : @abf_in T := mkIn (i_x i) (i_e i) (i_o i) (i_j i) false.
+  Definition no_boundary (i : @abf_in T) : @abf_in T := mkIn (i_x i) (i_e i) (i_o i) (i_j i) false (i_apply i).
 
   Definition abf_machine : machine (@abf_cfg T) (@abf_state T) (@abf_in T) (@abf_out T) abf_saved :=
     mkMachine (abf_init O)
